@@ -652,6 +652,8 @@ def case_chain(spec):
         for depth, step in enumerate(spec["ops"]):
             contract, stags = step_tags_static(step)
             tags = ltags + stags + ["depth:%d" % (depth + 1)]
+            # earlier operations of the chain (a defect of an earlier step can surface later, e.g. when a lazy Cat is re-evaluated)
+            tags += sorted({"prev:" + step_tags_static(st)[1][0] for st in spec["ops"][:depth]})
             if not isinstance(F, Gaussian):
                 tags.append("lhs:" + type(F).__name__.split("[")[0])
             O2 = orc_step(O, step)
